@@ -136,6 +136,34 @@ theorem escape_table_anchors :
      hasClosure Generated.closures "boltz" "NewBoolFuncSymbol" && hasClosure Generated.closures "boltz" "NewStringFuncSymbol") = true := by
   decide
 
+/-- **No append onto a shared slice** (a proof about the table, as good as the extractor): every `append` in the four
+    packages whose first argument is a slice kept in a struct field or package-level variable — or a local that may alias one —
+    assigns the result back to that same field (the object grows), or the stored slice is only spread into a fresh one
+    (the per-call copy idiom of `createElementSymbol`, `getIndexPath`, `NewBaseStore`'s entity path); the one other row is the
+    reviewed exception listed with its reason in `reviewedAppends`.  Otherwise slices handed to different callers (the bucket
+    paths of two element symbols of one map symbol) would share a backing array. -/
+theorem no_append_onto_shared_slice : noAppendOntoShared Generated.appends = true := by decide
+
+/-- what the Boolean says, for any table -/
+theorem append_table_meaning (rs : List AppendRow) (h : noAppendOntoShared rs = true) :
+    ∀ r ∈ rs, r.how = .ontoShared →
+      ∃ e ∈ reviewedAppends, e.1 = r.pkg ∧ e.2.1 = r.func ∧ e.2.2.1 = r.operand := by
+  intro r hr hh
+  simp only [noAppendOntoShared, List.all_eq_true] at h
+  have := h r hr
+  simp only [AppendRow.ok, hh, bne_self_eq_false, Bool.false_or, List.any_eq_true, Bool.and_eq_true,
+    beq_iff_eq] at this
+  obtain ⟨e, he, h1⟩ := this
+  exact ⟨e, he, h1.1.1, h1.1.2, h1.2⟩
+
+/-- the append table is not blind on this tree: it lists the per-call copy in `createElementSymbol` and in `getIndexPath`,
+    the grow-in-place registrations, and the reviewed row is really there (the exception list has no dead entry) -/
+theorem append_table_anchors :
+    (hasAppend Generated.appends "boltz" "entityMapSymbol.createElementSymbol" "self.prefix" .copyOut &&
+     hasAppend Generated.appends "boltz" "Indexer.getIndexPath" "indexer.basePath" .copyOut &&
+     hasAppend Generated.appends "boltz" "Indexer.AddConstraint" "indexer.constraints" .assignedBack &&
+     hasAppend Generated.appends "boltz" "NewBaseStore" "definition.BasePath" .ontoShared) = true := by decide
+
 /-- in the store model a reader's paging lives in the reader's own query: a paged empty filter is a page of the unpaged
     answer on the same version, whatever other queries were evaluated before -/
 theorem paged_query_is_page_of_all (sk l : Nat) (v : Ver) :
@@ -188,6 +216,11 @@ def closuresWithHoistedBuffer : List Closure :=
   [{ pkg := "boltz", func := "NewBoolFuncSymbol", escape := EscapeHow.returned,
      writes := [{ name := "buf", how := WriteHow.elem, decl := DeclKind.loc, underLock := false }] }]
 example : noSharedMutableEscape [] closuresWithHoistedBuffer = false := by decide
+
+/-- the table shape of "element symbols append their nested keys onto the map symbol's stored path" is rejected -/
+def appendsWithSharedMapPath : List AppendRow :=
+  [{ pkg := "boltz", func := "entityMapSymbol.createElementSymbol", operand := "self.path", via := "prefix", how := AppendHow.ontoShared }]
+example : noAppendOntoShared appendsWithSharedMapPath = false := by decide
 
 /-- the second reader's unpaged list is not cut by the first reader's limit (the model's answers on one version) -/
 example :
